@@ -36,7 +36,7 @@ class Free:
 CORE = frozenset("""int float varint zigzag bytes gbytes pstr pascal cstr gstr flag enum flagsenum mapping const computed
  pass padding struct seq fseq array grange parray if ite switch rebuild default prefixed fixedsized padded aligned
  nullterm nullstrip check""".split())
-SEQUENTIAL = CORE | frozenset("""runtil select optional stopif bitwise bitstruct bytewise byteswapped bitsswapped xor rol
+SEQUENTIAL = CORE | frozenset("""docs runtil select optional stopif bitwise bitstruct bytewise byteswapped bitsswapped xor rol
  compressed hex hexdump oneof noneof alignedstruct bomstr index terminated""".split())
 
 
@@ -294,6 +294,12 @@ def gen_group(draw, g):
     if o == "plain":
         name = g.fresh()
         spec = gen_spec(draw, g.child())
+        if g.has("docs") and draw(st.integers(0, 7)) == 0:
+            reg = spec[0] == "int" and int_range(spec)[1] >= 5 and not g.ctxfree
+            spec = ["docs", spec, "some documentation", draw(st.sampled_from(["inner", "outer"]))]
+            if reg:
+                g.ints.append((0, name, "int"))
+            return [[name, spec]]
         if spec[0] == "int" and int_range(spec)[1] >= 5 and not g.ctxfree:
             g.ints.append((0, name, "int"))
         return [[name, spec]]
@@ -902,6 +908,8 @@ def _gen_members(draw, members, sc, vp):
         last = i == n - 1
         used, consts = referenced_constants(members[i + 1:], name) if name else (False, [])
         mvp = vp if last else VP(avoid=vp.avoid, unit=vp.unit)
+        while sub[0] == "docs":
+            sub = sub[1]
         if sub[0] == "rebuild":
             v = draw(st.sampled_from([None, None, 0]))
             s2[name] = Free()
